@@ -117,6 +117,9 @@ func mergeRefs(ab *cmdsPair, a, b *cmd) {
 	for i, bName := range b.ref {
 		prefix := b.typ.ref[i]
 		bl := ab.b.lookup[prefix][bName]
+		if len(bl) == 0 {
+			errlog.Abort("'%s' references unknown '%s %s'", b.orig, prefix, bName)
+		}
 		refCmd := bl[0]
 		if refCmd.typ.simpleObj {
 			isReferenced[refCmd] = true
